@@ -18,12 +18,12 @@
 (* length.  Tap index t always refers to the filter AS GIVEN BY THE USER   *)
 (* (dec_lo / rec_lo order), not to the flipped copy the code stores.       *)
 (***************************************************************************)
-EXTENDS Idx, Op, TLC
+EXTENDS Idx, DWT1Src, Op, TLC
 
 CONSTANT PerFix   \* TRUE: the tree after "fix: periodization DWT/IDWT wrap around fully ..." (finding F1)
 
 (* ========================= Ref: PyWavelets ============================== *)
-RefALen(mode, N, L) == DwtCoeffLen(N, L, mode)
+\* RefALen, CorrLen, ImplAPads, ImplARaises: module DWT1Src (shared with the TLAPS proofs)
 
 \* pywt.dwt:  y[k] = SUM_j h[j] * xext[2k+1-j]
 \* (periodization: the window starts L/2 samples in and the signal is first
@@ -48,7 +48,6 @@ RefS(mode, M, L) ==
 \* x -> x[idx] : a gather with index vector idx (0-based function of length n; -1 = zero)
 \* followed by conv2d(stride s) with the STORED filter hs, where hs[u] = user tap Stored(u):
 \*   out[m] = SUM_u hs[u] * xg[s*m + u]
-CorrLen(n, L, s) == IF n < L THEN 0 ELSE ((n - L) \div s) + 1
 CorrGather(n, idx, L, s, Stored(_), ni) ==
     FromSrc(CorrLen(n, L, s), L, ni,
             LAMBDA m, t : \* user tap t sits at stored position u with Stored(u) = t
@@ -62,16 +61,6 @@ GatherIdx(inner, outer, n) == [p \in Rng(n) |-> IF outer[p] = -1 THEN -1 ELSE in
 IdIdx(n) == [p \in Rng(n) |-> p]
 
 (* ---- afb1d ---- *)
-\* the raise conditions of the code path (F.pad 'reflect' refuses pads >= size)
-ImplAPads(N, L, mode) ==
-    LET outsize == DwtCoeffLen(N, L, mode)
-        p == 2 * (outsize - 1) - N + L
-    IN  [p |-> p, lo |-> p \div 2, hi |-> (p + 1) \div 2]
-
-ImplARaises(mode, N, L) ==
-    /\ mode = "reflect"
-    /\ LET pd == ImplAPads(N, L, mode) IN ~TorchReflectOk(N, pd.lo, pd.hi)
-
 \* Stored(u) = which user tap sits at position u of the tensor handed to conv2d
 \* (prep_filt_afb1d stores the analysis filters flipped: Stored(u) = L-1-u)
 \* periodization branch of afb1d BEFORE the repair of finding F1 (kept as a negative model):
@@ -194,4 +183,13 @@ ImplSBackward(mode, M, L, bmode) ==
     LET P == ImplSLen(mode, M, L)
     IN  ImplAGeneric(bmode, P, L, LAMBDA u : u)
 
+(* ---- the scalar forms of module DWT1Src describe these tensors (checked by TLC; proved equal to Ref by TLAPS) ---- *)
+ScalarFormA(mode, N, L) ==
+    ~ImplARaises(mode, N, L) =>
+        Same3(ImplA(mode, N, L), FromSrc(ImplALen(mode, N, L), L, N, LAMBDA m, t : ImplASrc(mode, N, L, m, t)))
+ScalarFormRefA(mode, N, L) ==
+    Same3(RefA(mode, N, L), FromSrc(RefALen(mode, N, L), L, N, LAMBDA k, j : RefASrc(mode, N, L, k, j)))
+ScalarFormS(mode, M, L) ==
+    /\ Same3(ImplS(mode, M, L), Mk3(ImplSLenS(mode, M, L), L, M, LAMBDA q, i, k : ImplSCoef(mode, M, L, q, i, k)))
+    /\ Same3(RefS(mode, M, L), Mk3(RefSLenS(mode, M, L), L, M, LAMBDA q, i, k : RefSCoef(mode, M, L, q, i, k)))
 =============================================================================
